@@ -22,6 +22,7 @@ RULE = (
     "output, or a smooth-eligible pair, or an arc); distinct by the case."
 )
 ASSUMPTIONS = [
+    "decoys include a curve directly after a curve of the other degree whose control mirrors that curve's last control (not a smooth continuation: S/T reflect only a curve of their own degree)",
     "coordinates are written with 12 significant digits: lines and Beziers must come back within n x 1e-11 x scale, n = "
     "number of relative offsets accumulated so far",
     "arcs, sharp side: the written radii, rotation, flags and end point must be the arc's own (radii/rotation at the six "
